@@ -648,6 +648,8 @@ std::string gen_run(Rng &r, const Args &a) {
       sx << " (top 0) (assume 0 " << ge(V(w), I(b0)) << " " << le(V(w), I(-(b0 + (r.coin() ? k : 0)))) << rel << ")";
       if (r.below(3)) mode = r.coin() ? "widen" : "(delay " + I(r.range(1, 3)) + ")";
     }
+    // without acceleration a threshold would be crossed late in the chain: plain / delayed widening only
+    if (mode.find("thr") != std::string::npos) mode = r.coin() ? "widen" : "(delay " + I(r.range(1, 3)) + ")";
     break;
   }
   case 12: { // disjunctive start value: two far-apart points per variable (joined), then a loop body / new interior points
